@@ -10,15 +10,22 @@ package main
 
 import (
 	"bytes"
+	"context"
 	"crypto/rsa"
 	"encoding/binary"
 	"fmt"
+	"io"
+	"log"
+	"net"
+	"os"
 	"regexp"
 	"strconv"
 	"strings"
+	"time"
 
 	"github.com/gopcua/opcua/id"
 	"github.com/gopcua/opcua/ua"
+	"github.com/gopcua/opcua/uacp"
 	"github.com/gopcua/opcua/uapolicy"
 	"github.com/gopcua/opcua/uasc"
 
@@ -37,7 +44,7 @@ type env struct {
 
 var (
 	reSlice = regexp.MustCompile(`slice bounds out of range`)
-	reIdx  = regexp.MustCompile(`index out of range \[-(\d+)\]`)
+	reIdx   = regexp.MustCompile(`index out of range \[-(\d+)\]`)
 )
 
 // classify maps a Go panic message to the model's site names.
@@ -545,6 +552,344 @@ func (e *env) carveOut(uri string) {
 	}
 }
 
+// ------------------------------------------------------------------ channel level (readChunk)
+
+// connPair returns two uacp connections joined over loopback TCP (after the
+// HEL/ACK handshake): frames written to a arrive at b.
+func connPair() (a, b *uacp.Conn, closeAll func(), err error) {
+	l, err := net.Listen("tcp", "127.0.0.1:0")
+	if err != nil {
+		return nil, nil, nil, err
+	}
+	port := l.Addr().(*net.TCPAddr).Port
+	l.Close()
+	ep := fmt.Sprintf("opc.tcp://127.0.0.1:%d", port)
+	ctx, cancel := context.WithTimeout(context.Background(), 20*time.Second)
+	defer cancel()
+	ln, err := uacp.Listen(ctx, ep, nil)
+	if err != nil {
+		return nil, nil, nil, err
+	}
+	type res struct {
+		c   *uacp.Conn
+		err error
+	}
+	ch := make(chan res, 1)
+	go func() {
+		c, err := ln.Accept(ctx)
+		ch <- res{c, err}
+	}()
+	a, err = uacp.Dial(ctx, ep)
+	if err != nil {
+		ln.Close()
+		return nil, nil, nil, err
+	}
+	r := <-ch
+	if r.err != nil {
+		a.Close()
+		ln.Close()
+		return nil, nil, nil, r.err
+	}
+	return a, r.c, func() { a.Close(); r.c.Close(); ln.Close() }, nil
+}
+
+type chanInst struct {
+	tok    uint32
+	ln, rn []byte
+	send   *uasc.VerifInstance // the peer that shares these keys
+	recv   *uasc.VerifInstance // stand-alone copy of the receiving side (to obtain plaintext for the model)
+}
+
+// chanCtx is one receiving SecureChannel with its stored instances.
+type chanCtx struct {
+	name    string
+	uri     string
+	mode    ua.MessageSecurityMode
+	a       *uacp.Conn
+	sc      *uasc.SecureChannel
+	insts   []*chanInst // oldest first
+	chanID  uint32
+	opening bool
+	srvKey  *h.KeyPair
+}
+
+func setSize(b []byte) []byte {
+	if len(b) >= 8 {
+		binary.LittleEndian.PutUint32(b[4:], uint32(len(b)))
+	}
+	return b
+}
+
+// instToken describes one stored instance to the model for this frame.
+func (e *env) instToken(cc *chanCtx, ci *chanInst, frame []byte, v bool) string {
+	rs, sl := ci.recv.Algo().RemoteSignatureLength(), ci.recv.Algo().SignatureLength()
+	enc := cc.mode == ua.MessageSecurityModeSignAndEncrypt || (len(frame) >= 3 && string(frame[:3]) == "OPN")
+	if !enc {
+		return fmt.Sprintf("%d:%d:%d:id:-", rs, sl, b2i(v))
+	}
+	plain := "-"
+	if v && len(frame) > 16 {
+		if p, err := ci.recv.Algo().Decrypt(frame[16:]); err == nil {
+			plain = h.Hex(p)
+		}
+	}
+	return fmt.Sprintf("%d:%d:%d:aes:%s", rs, sl, b2i(v), plain)
+}
+
+// feed writes one frame to the peer connection, lets the real readChunk read
+// it, and compares with the model. signer = index of the stored instance whose
+// keys made the chunk (-1: none of them), derive = model token for the OPN
+// branch ("none" if the certificate does not yield an algorithm).
+func (e *env) feed(cc *chanCtx, kind string, frame []byte, signer int, derive string, wantBody []byte) {
+	polBefore := cc.sc.VerifConfig().SecurityPolicyURI == ua.SecurityPolicyURINone
+	cc.sc.VerifSetOpening(cc.opening)
+	if _, err := cc.a.Write(frame); err != nil {
+		e.r.InfraError = "write frame: " + err.Error()
+		return
+	}
+	type rr struct {
+		m   *uasc.MessageChunk
+		err error
+		p   interface{}
+	}
+	done := make(chan rr, 1)
+	go func() {
+		var out rr
+		defer func() {
+			out.p = recover()
+			done <- out
+		}()
+		out.m, out.err = cc.sc.VerifReadChunk()
+	}()
+	var got rr
+	select {
+	case got = <-done:
+	case <-time.After(60 * time.Second):
+		e.r.InfraError = "readChunk did not return within 60 s (" + kind + ")"
+		return
+	}
+	polAfter := cc.sc.VerifConfig().SecurityPolicyURI == ua.SecurityPolicyURINone
+	res := ""
+	switch {
+	case got.p != nil:
+		res = "panic"
+	case got.err == io.EOF:
+		res = "eof"
+	case got.err != nil:
+		res = fmt.Sprintf("err %d", b2i(polAfter))
+	default:
+		sh := make([]byte, 8)
+		binary.LittleEndian.PutUint32(sh, got.m.SequenceHeader.SequenceNumber)
+		binary.LittleEndian.PutUint32(sh[4:], got.m.SequenceHeader.RequestID)
+		res = fmt.Sprintf("deliver %s %d %d", h.Hex(sh), len(got.m.Data), b2i(polAfter))
+	}
+	// restore the configuration for the next frame (an OPN chunk overwrites the policy URI)
+	cc.sc.VerifConfig().SecurityPolicyURI = cc.uri
+
+	c := fmt.Sprintf("%s %s len=%d %s", cc.name, kind, len(frame), h.Hex(frame))
+	cshort := c
+	if len(cshort) > 300 {
+		cshort = cshort[:300] + "…"
+	}
+	e.r.Count(c, true)
+	e.r.Hit("chan-kind:" + strings.SplitN(kind, "@", 2)[0])
+	e.r.Hit("chan-impl:" + strings.Fields(res)[0])
+
+	// ---- model
+	var toks []string
+	for i, ci := range cc.insts {
+		toks = append(toks, e.instToken(cc, ci, frame, i == signer))
+	}
+	opening := "-"
+	if cc.opening {
+		// the opening instance carries the algorithm of the active (newest) instance
+		opening = e.instToken(cc, cc.insts[len(cc.insts)-1], frame, false)
+	}
+	req := fmt.Sprintf("chan %d %d %d %s %s %d %d %s %s", b2i(cc.mode == ua.MessageSecurityModeNone), b2i(cc.mode == ua.MessageSecurityModeSignAndEncrypt),
+		b2i(polBefore), opening, derive, cc.chanID, len(toks), strings.Join(toks, " "), h.Hex(frame))
+	req = strings.Join(strings.Fields(req), " ")
+	if e.d != nil {
+		m := e.d.Ask(req)
+		e.r.Hit("chan-model:" + strings.Fields(m)[0])
+		if m != res {
+			e.r.Disagree(cshort+" :: "+req[:min(len(req), 160)], m, res)
+		}
+	}
+	// ---- oracle (implementation alone)
+	switch {
+	case res == "panic":
+		e.r.Fail(cshort, "", fmt.Sprintf("readChunk panicked: %v", got.p))
+	case strings.HasPrefix(res, "deliver"):
+		if signer < 0 && derive == "none" {
+			e.r.Fail(cshort, "", "readChunk delivered a chunk that no stored instance's keys produced")
+		} else if wantBody != nil && !bytes.Equal(got.m.Data, wantBody) {
+			e.r.Fail(cshort, "", "genuine chunk delivered with a different body")
+		}
+	default:
+		if wantBody != nil {
+			e.r.Fail(cshort, "", "genuine chunk of a stored instance rejected: "+res)
+		}
+	}
+}
+
+func (e *env) channel(uri string, mode ua.MessageSecurityMode) {
+	pol := short(uri)
+	a, b, closeAll, err := connPair()
+	if err != nil {
+		e.r.InfraError = "loopback connection pair: " + err.Error()
+		return
+	}
+	defer closeAll()
+	srvKey, err := h.LoadKey(e.o.Keys, 2048, "b")
+	if err != nil {
+		e.r.InfraError = err.Error()
+		return
+	}
+	cfg := &uasc.Config{SecurityPolicyURI: uri, SecurityMode: mode, LocalKey: srvKey.Key, Certificate: srvKey.CertDER, Lifetime: 3600000, RequestTimeout: 10 * time.Second}
+	const chanID = 7
+	cc := &chanCtx{name: fmt.Sprintf("chan %s %d", pol, mode), uri: uri, mode: mode, a: a, chanID: chanID, srvKey: srvKey}
+	errch := make(chan error, 16)
+	for i := 0; i < 3; i++ { // three tokens: two renewals
+		ci := &chanInst{tok: uint32(11 + i), ln: e.rnd.Bytes(32), rn: e.rnd.Bytes(32)}
+		if i == 0 {
+			cc.sc, err = uasc.VerifOpenChannel(b, cfg, true, chanID, ci.tok, 1, ci.ln, ci.rn, errch)
+		} else {
+			err = cc.sc.VerifAddInstance(chanID, ci.tok, ci.ln, ci.rn)
+		}
+		if err == nil {
+			ci.send, err = uasc.VerifNewSymmetricInstance(uri, mode, ci.rn, ci.ln)
+		}
+		if err == nil {
+			ci.recv, err = uasc.VerifNewSymmetricInstance(uri, mode, ci.ln, ci.rn)
+		}
+		if err != nil {
+			e.r.InfraError = "channel setup: " + err.Error()
+			return
+		}
+		ci.send.SetIDs(chanID, ci.tok)
+		cc.insts = append(cc.insts, ci)
+	}
+	e.r.Hit("chan-policy:" + pol)
+	mk := func(ci *chanInst, id uint32, body []byte, typ string) ([]byte, []byte) {
+		rawb, m := rawChunk(body, 21)
+		copy(rawb[0:3], typ)
+		m.Header.MessageType = typ
+		binary.LittleEndian.PutUint32(rawb[8:], id)
+		binary.LittleEndian.PutUint32(rawb[12:], ci.tok)
+		out, err := ci.send.SignAndEncrypt(m, append([]byte{}, rawb...))
+		if err != nil {
+			e.r.InfraError = "SignAndEncrypt: " + err.Error()
+			return nil, nil
+		}
+		return out, rawb[24:]
+	}
+	body := e.rnd.Bytes(40 + e.rnd.Intn(40))
+	// genuine chunks under each stored instance (newest, middle, oldest): the retry loop
+	for i := len(cc.insts) - 1; i >= 0; i-- {
+		if f, want := mk(cc.insts[i], chanID, body, "MSG"); f != nil {
+			e.feed(cc, fmt.Sprintf("genuine-inst@%d", i), f, i, "none", want)
+		}
+	}
+	// keys that are not stored
+	stranger := &chanInst{tok: 99, ln: e.rnd.Bytes(32), rn: e.rnd.Bytes(32)}
+	stranger.send, _ = uasc.VerifNewSymmetricInstance(uri, mode, stranger.rn, stranger.ln)
+	if f, _ := mk(stranger, chanID, body, "MSG"); f != nil {
+		e.feed(cc, "unknown-keys", f, -1, "none", nil)
+	}
+	// a genuine chunk for another SecureChannelID
+	if f, _ := mk(cc.insts[2], chanID+1, body, "MSG"); f != nil {
+		e.feed(cc, "unknown-channel-id", f, -1, "none", nil)
+	}
+	// CLO
+	if f, _ := mk(cc.insts[2], chanID, body, "CLO"); f != nil {
+		e.feed(cc, "clo", f, 2, "none", nil)
+	}
+	// every byte flipped (the MessageSize field is the framing of the transport: left intact)
+	f0, _ := mk(cc.insts[1], chanID, body, "MSG")
+	if f0 == nil {
+		return
+	}
+	step := e.o.N(3, 1)
+	off := e.rnd.Intn(step)
+	for i := range f0 {
+		if i >= 4 && i < 8 {
+			continue
+		}
+		if i >= 16 && i%step != off {
+			continue
+		}
+		t := append([]byte{}, f0...)
+		t[i] ^= 1 << uint(e.rnd.Intn(8))
+		e.feed(cc, fmt.Sprintf("flip@%d", i), t, -1, "none", nil)
+	}
+	// truncation to every length the transport can deliver (MessageSize rewritten)
+	for t := 8; t < len(f0); t++ {
+		if t > 40 && t%step != off {
+			continue
+		}
+		e.feed(cc, fmt.Sprintf("trunc@%d", t), setSize(append([]byte{}, f0[:t]...)), -1, "none", nil)
+	}
+	for _, k := range []int{1, 16, 32} {
+		e.feed(cc, fmt.Sprintf("append@%d", k), setSize(append(append([]byte{}, f0...), e.rnd.Bytes(k)...)), -1, "none", nil)
+	}
+	// ---- OPN chunks
+	forged := opnHeader(ua.SecurityPolicyURINone, nil, nil)
+	forged = append(forged, 1, 0, 0, 0, 1, 0, 0, 0)
+	forged = setSize(append(forged, e.rnd.Bytes(56)...))
+	cc.opening = false
+	e.feed(cc, "opn-no-opening-instance", forged, -1, "none", nil)
+	cc.opening = true
+	// plaintext OPN naming policy None on a secured channel: overwrites cfg.SecurityPolicyURI before any check
+	e.feed(cc, "opn-forged-policy-none", forged, -1, "none", nil)
+	// OPN with a certificate that does not parse
+	junk := setSize(append(opnHeader(uri, e.rnd.Bytes(300), e.rnd.Bytes(20)), e.rnd.Bytes(256)...))
+	e.feed(cc, "opn-bad-certificate", junk, -1, "none", nil)
+	// genuine asymmetric OPN from a client with its own certificate, and one signed by another key
+	ck, err1 := h.LoadKey(e.o.Keys, 2048, "a")
+	if err1 != nil {
+		e.r.InfraError = err1.Error()
+		return
+	}
+	asym := func(signKey *h.KeyPair) ([]byte, []byte, string) {
+		snd, err := uasc.VerifNewAsymmetricInstance(uri, mode, signKey.Key, &srvKey.Key.PublicKey, ck.CertDER, uapolicy.Thumbprint(srvKey.CertDER))
+		if err != nil {
+			return nil, nil, ""
+		}
+		req := &ua.OpenSecureChannelRequest{RequestHeader: &ua.RequestHeader{AuthenticationToken: ua.NewTwoByteNodeID(0)},
+			RequestType: ua.SecurityTokenRequestTypeRenew, SecurityMode: mode, ClientNonce: e.rnd.Bytes(32), RequestedLifetime: 3600000}
+		msg := snd.NewMessage(req, id.OpenSecureChannelRequest_Encoding_DefaultBinary, 1)
+		chunks, err := msg.EncodeChunks(1 << 16)
+		if err != nil {
+			return nil, nil, ""
+		}
+		hl := 12 + msg.AsymmetricSecurityHeader.Len()
+		want := append([]byte{}, chunks[0][hl+8:]...)
+		out, err := snd.SignAndEncrypt(msg, chunks[0])
+		if err != nil {
+			return nil, nil, ""
+		}
+		// what the receiver derives from the certificate in the chunk
+		ra, err := uapolicy.Asymmetric(uri, srvKey.Key, &ck.Key.PublicKey)
+		if err != nil {
+			return out, want, "none"
+		}
+		p, err := ra.Decrypt(out[hl:])
+		if err != nil {
+			return out, want, fmt.Sprintf("%d:%d:0:fail:-", ra.RemoteSignatureLength(), ra.SignatureLength())
+		}
+		v := ra.VerifySignature(append(append([]byte{}, out[:hl]...), p[:len(p)-ra.RemoteSignatureLength()]...), p[len(p)-ra.RemoteSignatureLength():]) == nil
+		return out, want, fmt.Sprintf("%d:%d:%d:id:%s", ra.RemoteSignatureLength(), ra.SignatureLength(), b2i(v), h.Hex(p))
+	}
+	if f, want, tok := asym(ck); f != nil {
+		e.feed(cc, "opn-genuine", f, -1, tok, want)
+	}
+	if other, err := h.LoadKey(e.o.Keys, 2048, "b"); err == nil {
+		if f, _, tok := asym(other); f != nil { // certificate of a, signature of b
+			e.feed(cc, "opn-wrong-signer", f, -1, tok, nil)
+		}
+	}
+}
+
 // ------------------------------------------------------------------ main
 
 func (e *env) all() {
@@ -578,6 +923,27 @@ func (e *env) all() {
 			e.carveOut(uri)
 		}
 	}
+	for _, uri := range uapolicy.SupportedPolicies() {
+		if uri == ua.SecurityPolicyURINone {
+			continue
+		}
+		for _, mode := range modes {
+			e.channel(uri, mode)
+			if e.r.InfraError != "" {
+				return
+			}
+		}
+	}
+	// end to end through the man-in-the-middle proxy
+	if e.o.Thorough() {
+		e.mitmAll()
+	} else {
+		var plans []tamper0
+		for _, dir := range []string{"s2c", "c2s"} {
+			plans = append(plans, tamper0{dir, "flip", 16 + e.rnd.Intn(60)}, tamper0{dir, "flip", e.rnd.Intn(4)}, tamper0{dir, "trunc", 21}, tamper0{dir, "append", 16})
+		}
+		e.mitm("Basic256Sha256", ua.MessageSecurityModeSignAndEncrypt, plans)
+	}
 }
 
 // replay re-runs one recorded case "sym <pol> <mode> <kind> len=<n> <hex>" /
@@ -604,6 +970,12 @@ func (e *env) replay(line string) {
 var _ *rsa.PrivateKey
 
 func main() {
+	if os.Getenv(mitmEnv) != "" {
+		log.SetOutput(io.Discard)
+		mitmChild()
+		return
+	}
+	log.SetOutput(io.Discard)
 	o := h.ParseOpts()
 	r := h.NewResult("C09", o)
 	d, err := h.StartDriver(o.Driver)
